@@ -8,9 +8,10 @@ fail and yields the same value).  Anything else the optimizer does - dropping an
 around something that merely CAN match empty - changes what is accepted, consumed or skipped."""
 from __future__ import annotations
 
+import ast
 import itertools
 
-from ..loader import AnalysisError
+from ..loader import AnalysisError, norm, walk_no_defs
 from ..minieval import Unsupported
 from ..modelinterp import Hook, ModelInterp, Stub
 from ..report import RuleReport
@@ -214,4 +215,80 @@ def r11_optimizer(a, tier):
             m = a.ct.lookup(cls, 'optimized')
             rep.fail(m.qualname if m else cls, f'optimizer:{what}', f'optimized() turns {what} = {normal(before)} into {normal(after)}: the parse runs on the optimized '
                      f'grammar, which accepts / consumes / skips differently from the grammar that was written', m.loc if m else None)
+    return rep
+
+
+def calls_keep_their_rule(a, rule_id):
+    """the optimisation pass never replaces a reference to a rule by a reference to, or the body of, the rule that rule refers to"""
+    from ..minieval import Unsupported
+    from ..modelinterp import Bound, ModelInterp
+    rep = RuleReport(
+        rule_id,
+        'a rule invocation stays an invocation of THAT rule through the optimisation pass (which every parse and every generated parser '
+        'goes through): the boundary of a rule is where its @name keyword check, its semantic action, its parse information and its memo '
+        'entry live, so `ident` may not be optimised into the `word` it is an alias of. The alias-collapsing code of Call.optimized / '
+        'Rule.optimized acts only on references that carry their resolved rule (Call._rule); as long as nothing but that code itself '
+        'stores into Call._rule it cannot run. Where some other code stores it, Call.optimized and Rule.optimized are interpreted on '
+        'resolved references (an alias of an @name rule, a chain of aliases) and must return a call of the same rule / keep the call',
+        floor=1,
+    )
+    CALL, RULE = Q['Call'], 'tatsu.peg.base.Rule'
+    writers = []
+    for f in a.p.functions.values():
+        if not f.module.name.startswith('tatsu.peg') and not f.module.name.startswith('tatsu.api') and not f.module.name.startswith('tatsu.contexts'):
+            continue
+        for n in walk_no_defs(f.node):
+            if isinstance(n, ast.Attribute) and isinstance(n.ctx, ast.Store) and n.attr == '_rule':
+                owner_is_call = (f.cls is not None and a.ct.is_subclass(f.cls.qualname, CALL) and norm(n.value) == 'self') or (
+                    f.cls is None or not a.ct.is_subclass(f.cls.qualname, 'tatsu.peg.base.Grammar'))
+                if f.cls is not None and a.ct.is_subclass(f.cls.qualname, 'tatsu.peg.base.Grammar') and norm(n.value) == 'self':
+                    continue  # Grammar._rule is the namespace of rules, another attribute
+                if owner_is_call:
+                    writers.append((f, n))
+    inside_optimizer = [(f, n) for f, n in writers if f.name == 'optimized']
+    others = [(f, n) for f, n in writers if f.name != 'optimized']
+    rep.add({'stores_into_Call._rule': [f'{f.qualname}: {norm(n)}' for f, n in writers], 'outside_the_optimizer': [f.qualname for f, _ in others]})
+    if not others:
+        rep.notes.append('no code outside optimized() resolves Call._rule: the alias-collapsing branches cannot run')
+        return rep
+    co, ro = a.ct.lookup(CALL, 'optimized'), a.ct.lookup(RULE, 'optimized')
+
+    def mk_rule(name, exp, **flags):
+        return Stub(RULE, name=name, exp=exp, params=(), kwparams={}, decorators=[], base=None, is_name=flags.get('is_name', False), is_tokn=False, no_memo=False,
+                    no_stak=False, is_memo=True, is_lrec=False)
+    word = mk_rule('word', Stub(Q['Pattern'], pattern='\\w+'))
+    ident = mk_rule('ident', Stub(CALL, name='word', _rule=word), is_name=True)
+    alias2 = mk_rule('alias2', Stub(CALL, name='ident', _rule=ident))
+    G = {'copy': Hook(_copy), 'cast': Hook(lambda t, v: v), 'Call': Hook(lambda name=None, **k: Stub(CALL, name=name, _rule=None), q=CALL)}
+    for what, target in (('a call of the @name rule `ident`, an alias of `word`', ident), ('a call of `alias2`, an alias of `ident`', alias2)):
+        call = Stub(CALL, name=target._attrs['name'], _rule=target)
+        try:
+            got = ModelInterp(a, dict(G)).call_bound(Bound(call, co), [], {})
+        except Unsupported as e:
+            raise AnalysisError(f'{rule_id}: cannot interpret Call.optimized: {e}') from e
+        gname = got._attrs.get('name') if isinstance(got, Stub) else None
+        ok = isinstance(got, Stub) and got._cls == CALL and gname == target._attrs['name']
+        rep.add({'optimized': what, 'gives': f'call of {gname!r}' if gname else repr(got)[:60], 'ok': ok})
+        if not ok:
+            rep.fail(co.qualname, f'call-bypasses-rule:{target._attrs["name"]}', f'{what} is optimised into ' + (f'a call of `{gname}`' if gname else repr(got)[:60]) +
+                     f': the rule `{target._attrs["name"]}` is never invoked, so its @name keyword check, semantic action and parse information are skipped (resolved by '
+                     f'{others[0][0].qualname})', co.loc)
+    start = mk_rule('start', Stub(CALL, name='ident', _rule=ident))
+    start._attrs['lookahead'] = Hook(lambda *x, **k: set())  # the lookahead sets are not part of this obligation
+    try:
+        it = ModelInterp(a, dict(G))
+        it.globals['Sequence'] = Hook(lambda sequence=None, **k: Stub(Q['Sequence'], sequence=sequence), q=Q['Sequence'])
+        it.globals['Group'] = Hook(lambda exp=None, **k: Stub(Q['Group'], exp=exp), q=Q['Group'])
+        got = it.call_bound(Bound(start, ro), [], {})
+        body = got._attrs.get('exp') if isinstance(got, Stub) else None
+    except Unsupported as e:
+        if rep.findings:
+            rep.notes.append(f'Rule.optimized not interpreted ({e}); the findings on Call.optimized stand')
+            return rep
+        raise AnalysisError(f'{rule_id}: cannot interpret Rule.optimized: {e}') from e
+    ok = isinstance(body, Stub) and body._cls == CALL and body._attrs.get('name') == 'ident'
+    rep.add({'optimized': 'the rule `start = ident`', 'body': (body._cls.split('.')[-1] + ' ' + str(body._attrs.get('name', ''))) if isinstance(body, Stub) else repr(body)[:40], 'ok': ok})
+    if not ok:
+        rep.fail(ro.qualname, 'rule-inlines-call', 'the rule `start = ident` is optimised into the body of `ident` (or of the rule ident refers to): invoking `start` no longer '
+                 'invokes `ident`', ro.loc)
     return rep
